@@ -34,6 +34,7 @@ func fatal(err error) {
 }
 
 var runners = map[string]func(Config){
+	"C01": runC01,
 	"C02": runC02,
 	"C03": runC03,
 	"C04": runC04,
